@@ -417,9 +417,48 @@ def crash_points(_):
   return n, points, bad
 
 
+def startup_matrix(_):
+  """USE_INSECURE_UNPICKLER through the daemons' real start-up (postOptions on a generated carbon.conf, mc/daemonconf.py):
+  the file says off / nothing; every environment variable the start-up consults whose name mentions the setting is then
+  given the usual spellings of "off".  Whenever the configuration says off, the value the listeners test
+  (settings.USE_INSECURE_UNPICKLER) must be false."""
+  from .. import daemonconf
+  bad = []
+  n = 0
+  for program in ('carbon-cache', 'carbon-relay', 'carbon-aggregator'):
+    for base in ({}, {'USE_INSECURE_UNPICKLER': 'False'}):
+      extra = {'DESTINATIONS': '127.0.0.1:2004:a'} if program != 'carbon-cache' else {}
+      try:
+        r = daemonconf.effective(program, dict(base, **extra), keys=['USE_INSECURE_UNPICKLER'])
+      except Exception as e:   # noqa
+        bad.append(('config:exception', 'start-up of %s with %r failed: %s' % (program, base, str(e)[-300:]), {'startup': program}))
+        continue
+      n += 1
+      if r['USE_INSECURE_UNPICKLER']:
+        bad.append(('config:insecure-unpickler', '%s started with %r ends up with USE_INSECURE_UNPICKLER=%r' % (
+          program, base, r['USE_INSECURE_UNPICKLER']), {'startup': program, 'base': base}))
+      for var in r.get(daemonconf.ENV_KEY, []):
+        if 'UNPICKLER' not in var.upper():
+          continue
+        for spelling in ('false', 'False', 'FALSE', 'no', 'off', '0'):
+          n += 1
+          r2 = daemonconf.effective(program, dict(base, **extra), keys=['USE_INSECURE_UNPICKLER'], environ={var: spelling})
+          if r2['USE_INSECURE_UNPICKLER']:
+            bad.append(('config:insecure-unpickler', '%s started with %s=%s in the environment (carbon.conf: %r) ends up with '
+                        'settings.USE_INSECURE_UNPICKLER=%r, which the listeners treat as "on"' % (
+                          program, var, spelling, base, r2['USE_INSECURE_UNPICKLER']),
+                        {'startup': program, 'base': base, 'environ': {var: spelling}}))
+            break
+  return n, bad[:3]
+
+
 def run(ctx):
   load_daemon_modules()
   install_hook()
+  sn, sbad = startup_matrix(0)
+  for key, what, rep in sbad:
+    ctx.violation(key, what, rep)
+  ctx.add(startup_cases=sn)
   kn, kpoints, kbad = core.pmap(crash_points, [0], fresh=True)[0]
   for key, what, rep in kbad:
     ctx.violation(key, what, rep)
@@ -479,6 +518,13 @@ def replay(path):
     n, bad = config_matrix(0)
     for key, what, _ in bad:
       print('oracle: [%s] %s' % (key, what))
+    return 1 if bad else 0
+  if 'startup' in rep:
+    n, bad = startup_matrix(0)
+    for key, what, _ in bad:
+      print('oracle: [%s] %s' % (key, what))
+    if not bad:
+      print('oracle: holds')
     return 1 if bad else 0
   if 'crash_point' in rep:
     n, points, bad = crash_points(0)
